@@ -10,6 +10,7 @@ EXTENDS ProfTree, Json
 
 VARIABLE oi
 MCFnObs == <<"f1", "f2", "f3">>
+MCNoPlans == {}
 ObsLog == ndJsonDeserialize("obs.ndjson")
 
 RECURSIVE AddN(_, _, _)
